@@ -346,7 +346,7 @@ func c08(c *core.Check) {
 	}
 
 	// ---- R4 whitespace / comments removed before validation
-	r4 := c.Rule("R4", "the tokens handed to an expander or to validateNonShorthand in the declaration loop derive from parser.RemoveWhitespace(declaration.Value)", 3)
+	r4 := c.Rule("R4", "the tokens handed to an expander or to validateNonShorthand in the declaration loop derive from parser.RemoveWhitespace(declaration.Value)", 1)
 	if ppd != nil {
 		rw := p.Fn("css/parser", "RemoveWhitespace")
 		fromRW := func(v ssa.Value) bool {
@@ -377,7 +377,7 @@ func c08(c *core.Check) {
 	}
 
 	// ---- R6 background layers stay aligned
-	r6 := c.Rule("R6", "expandBackground parses the layers in reverse order into one list per longhand and puts every one of these lists back in source order: the lists filled in the layer loop are exactly the lists permuted afterwards (a list left reversed pairs each layer's value with another layer)", 7)
+	r6 := c.Rule("R6", "expandBackground parses the layers in reverse order into one list per longhand and puts every one of these lists back in source order: the lists filled in the layer loop are exactly the lists permuted afterwards (a list left reversed pairs each layer's value with another layer)", 5)
 	if eb := p.Fn("css/validation", "expandBackground"); eb == nil {
 		r6.Anchor("css/validation.expandBackground")
 	} else {
@@ -473,7 +473,7 @@ func c08(c *core.Check) {
 		r7.Unknown("html/tree | variables field", "-", "no assignment of a `variables` field found")
 	}
 
-	r9 := c.Rule("R9", "a comment is white space to the value parsers: every switch and condition of the parsing code that steps over white space steps over comments too (the document pipeline keeps comments as tokens), so that `rgb(0, /**/ 0, 0)` or `!important /**/` mean what they mean without the comment", 8)
+	r9 := c.Rule("R9", "a comment is white space to the value parsers: every switch and condition of the parsing code that steps over white space steps over comments too (the document pipeline keeps comments as tokens), so that `rgb(0, /**/ 0, 0)` or `!important /**/` mean what they mean without the comment", 7)
 	triviaRule(c, r9)
 
 	c08FlexZero(c)
@@ -490,11 +490,11 @@ func c08(c *core.Check) {
 	c08FontFaceDescriptors(c)
 	c08BorderSideColours(c)
 	c08ListStyleNone(c)
-	r12 := c.Rule("R12", "a malformed declaration followed by a nested rule: the tokens of the failed declaration, the ';' that ended it and the rest of the block are all handed back before the block is re-read as rules (shared with C06.R6)", 3)
+	r12 := c.Rule("R12", "a malformed declaration followed by a nested rule: the tokens of the failed declaration, the ';' that ended it and the rest of the block are all handed back before the block is re-read as rules (shared with C06.R6)", 1)
 	c06RewindRule(c, r12)
 
 	// ---- R5 var() cycles
-	r5 := c.Rule("R5", "tree.resolveVar follows custom properties under a visited set: a membership test on the variable name excludes the lookup of its value, and the name is inserted before the looked-up tokens are resolved recursively and removed again when that resolution returns (the set holds the resolutions in progress, not every name seen)", 3)
+	r5 := c.Rule("R5", "tree.resolveVar follows custom properties under a visited set: a membership test on the variable name excludes the lookup of its value, and the name is inserted before the looked-up tokens are resolved recursively and removed again when that resolution returns (the set holds the resolutions in progress, not every name seen)", 1)
 	rv := p.Fn("html/tree", "resolveVar")
 	if rv == nil {
 		r5.Anchor("html/tree.resolveVar")
@@ -717,7 +717,7 @@ func c08FlexZero(c *core.Check) {
 // c08CascadeEntries: every entry written into a cascaded style keeps the shorthand it came from.
 func c08CascadeEntries(c *core.Check) {
 	p := c.Prog
-	r := c.Rule("R11", "a declaration keeps the shorthand it was written with until var() is substituted: every weigthedValue stored into a cascaded style (style sheets, style attributes, presentational hints) carries the declaration's `shortand` field next to its value — a pending `margin: var(--m)` written from a style attribute is otherwise validated as a longhand", 3)
+	r := c.Rule("R11", "a declaration keeps the shorthand it was written with until var() is substituted: every weigthedValue stored into a cascaded style (style sheets, style attributes, presentational hints) carries the declaration's `shortand` field next to its value — a pending `margin: var(--m)` written from a style attribute is otherwise validated as a longhand", 1)
 	pk := p.ByPath["html/tree"]
 	if pk == nil {
 		r.Anchor("html/tree")
